@@ -4,6 +4,7 @@ import (
 	"context"
 	"errors"
 	"fmt"
+	"os"
 	"strings"
 	"sync"
 	"sync/atomic"
@@ -165,7 +166,7 @@ func (s *sched) rec(e Event) {
 }
 
 func (s *sched) gate(p, kind, key, v string, ttl int) gcmd {
-	if !s.steer {
+	if !s.steer || os.Getenv("VERIF_NOGATE") == kind { // VERIF_NOGATE: binding demonstration (bin/bindingdemo) only
 		if s.yield != nil {
 			s.yield()
 		}
